@@ -40,11 +40,12 @@ static void normals()
     off = vf_f64("off");
     vf_assume((off >= 0.5) | (off <= -0.5));
   }
+  const double lim = vf_symbolic() ? 100 : 1e7;     // concrete vectors may sit in a map frame
   for (int i = 0; i < k; ++i) {
     double dot = 0;
     for (int d = 0; d < D; ++d) {
       x[i][d] = vf_f64(PX[3 * i + d]);
-      vf_assume((x[i][d] <= 100) & (x[i][d] >= -100));
+      vf_assume((x[i][d] <= lim) & (x[i][d] >= -lim));
       dot += n0[d] * x[i][d];
     }
     if (planar) {vf_assume(dot == off);}
@@ -113,7 +114,9 @@ static void normals()
     for (int b = 0; b < D; ++b) {cn += C[a][b] * nv[b];}
     vf_lemma(vf_eq(cn, lmin * nv[a]), "normal-is-an-eigenvector-of-the-neighbourhood-covariance");
   }
-  vf_lemma((curv[q] >= -1e-12) & (curv[q] <= 1.0 / D + 1e-12), "curvature-in-[0,1/DIM]");
+  // (concrete runs far from the origin: the two-pass covariance itself carries rounding of the order of 1e-8 there)
+  const double ctol = vf_symbolic() ? 1e-12 : 1e-6;
+  vf_lemma((curv[q] >= -ctol) & (curv[q] <= 1.0 / D + ctol), "curvature-in-[0,1/DIM]");
   // least variance: for any unit direction u, u^T C u >= l_min
   double u[3], uu = 0, uCu = 0;
   static const char * UN[3] = {"u0", "u1", "u2"};
